@@ -300,6 +300,9 @@ Section Model.
               c_dict c1 = match dictBuffer with Some d => lastZ FC_64KB d | None => [] end).
     { intros dictBuffer cdict E. unfold compressBegin_internal in E. cbv zeta in E.
       fold p0 in E. fold p in E. rewrite (getBlockSize_spec _ _ Hmaxb) in E.
+      assert (HnoErr : isError maxb = false).
+      { pose proof (bsid_size_range _ _ Hmaxb). unfold isError, errZ, U64, FC_ERR_maxCode. lia. }
+      rewrite HnoErr in E.
       destruct dictBuffer as [d|].
       - destruct (FC_INT_MAX <? len d); [discriminate|]. inversion E; subst hdr c1. cbn.
         repeat split; try reflexivity. intros Hne. destruct (Z.eqb_spec (p_contentSize p) 0); [contradiction|reflexivity].
@@ -658,3 +661,94 @@ Section Model.
     destruct (Z.eqb_spec (p_contentSize p) 0) as [E|E]; [exact I|]. rewrite <- HXc. apply Hcs. exact E.
   Qed.
 End Model.
+
+(* ---- the fuel of the block loop always suffices ---- *)
+Lemma flush_not_fuel : forall blk c, fst (flush blk c) <> OutOfFuel.
+Proof.
+  intros blk c. unfold flush.
+  destruct (len (c_tmp c) =? 0); [cbn; discriminate|].
+  destruct (negb (c_stage c =? 1)); [cbn; discriminate|].
+  destruct (makeBlock blk c (c_tmp c) _) as [o c1]. cbn. discriminate.
+Qed.
+
+Theorem update_never_out_of_fuel : forall blk c src bc,
+  0 < c_maxBlock c -> fst (compressUpdateImpl blk c src bc) <> OutOfFuel.
+Proof.
+  intros blk c src bc Hm. unfold compressUpdateImpl. cbv zeta.
+  destruct (negb (c_stage c =? 1)); [cbn; discriminate|].
+  set (st0 := if negb (c_mode c =? bc)
+              then match flush blk c with
+                   | (Out o, c1) => inl (o, set_mode c1 bc)
+                   | (r, c1) => inr (r, c1)
+                   end
+              else inl ([], c)).
+  assert (H0 : match st0 with inl _ => True | inr (r, _) => r <> OutOfFuel end).
+  { unfold st0. destruct (negb (c_mode c =? bc)); [|exact I].
+    pose proof (flush_not_fuel blk c) as Hf. destruct (flush blk c) as [r c1]. cbn [fst] in Hf.
+    destruct r; [exact Hf|exact I|exact Hf]. }
+  destruct st0 as [[o0 c0]|[r c1]]; [|cbn; exact H0].
+  destruct (if 0 <? len (c_tmp c0) then _ else _) as [[o1 c1] rest1] eqn:E1.
+  match goal with |- context [fullBlocks blk ?fuel ?cc ?f ?bs ?rest] =>
+    pose proof (fullBlocks_fuel blk fuel cc f bs rest Hm ltac:(lia)) as Hfb2 end.
+  destruct (fullBlocks blk (S (length rest1)) c1 _ (c_maxBlock c) rest1) as [[[o2 c2] rest2]|]; [|contradiction].
+  destruct (if negb (p_autoFlush (c_prefs c) =? 0) && (0 <? len rest2) then _ else _) as [[o3 c3] rest3].
+  cbn. discriminate.
+Qed.
+
+(* ---- an invalid blockSizeID is refused (lz4frame.c: FORWARD_IF_ERROR on LZ4F_getBlockSize) ---- *)
+Definition bad_bsid (b : Z) : Prop := b <> 0 /\ (b < 4 \/ 7 < b).
+
+Lemma getBlockSize_bad : forall b, bad_bsid b -> getBlockSize b = errZ FC_ERR_maxBlockSize_invalid.
+Proof.
+  intros b [Hn Hb]. unfold getBlockSize, LZ4F_max64KB, LZ4F_max4MB.
+  destruct (Z.eqb_spec b 0); [contradiction|].
+  replace ((b <? 4) || (7 <? b)) with true by lia. reflexivity.
+Qed.
+
+Theorem begin_rejects_bad_bsid : forall c0 po dk,
+  bad_bsid (p_bsid (match po with Some p => p | None => prefs_null end)) ->
+  exists c1, compressBegin c0 po dk = (Err FC_ERR_maxBlockSize_invalid, c1).
+Proof.
+  intros c0 po dk Hb.
+  assert (Hgen : forall dictBuffer cdict, exists c1,
+            compressBegin_internal c0 dictBuffer cdict po = (Err FC_ERR_maxBlockSize_invalid, c1)).
+  { intros dictBuffer cdict. unfold compressBegin_internal. cbv zeta.
+    set (p0 := match po with Some p => p | None => prefs_null end) in *.
+    destruct (Z.eqb_spec (p_bsid p0) 0) as [E|E]; [destruct Hb; contradiction|].
+    rewrite (getBlockSize_bad _ Hb).
+    replace (isError (errZ FC_ERR_maxBlockSize_invalid)) with true by reflexivity.
+    eexists. reflexivity. }
+  unfold compressBegin. destruct dk; apply Hgen.
+Qed.
+
+Lemma optimalBSID_small : forall b s, b < 4 -> optimalBSID b s = b.
+Proof.
+  intros b s Hb. unfold optimalBSID, LZ4F_max64KB.
+  destruct (Z.to_nat b); cbn [optimalBSID_loop]; [reflexivity|].
+  replace (4 <? b) with false by lia. reflexivity.
+Qed.
+
+Theorem compressFrame_rejects_bad_bsid : forall blk c src cdict po,
+  (let b := p_bsid (match po with Some p => p | None => prefs_null end) in b <> 0 /\ b < 4) ->
+  exists c1, compressFrame_usingCDict blk c src cdict po = (Err FC_ERR_maxBlockSize_invalid, c1).
+Proof.
+  intros blk c src cdict po Hb. cbv zeta in Hb.
+  unfold compressFrame_usingCDict. cbv zeta.
+  set (p3 := compressFrame_prefs po (len src)).
+  assert (Hp3 : bad_bsid (p_bsid p3)).
+  { unfold p3, compressFrame_prefs. cbv zeta.
+    set (p0 := match po with Some p => p | None => prefs_null end) in *.
+    set (p1 := if negb (p_contentSize p0 =? 0) then set_contentSize p0 (len src) else p0).
+    assert (B1 : p_bsid p1 = p_bsid p0) by (unfold p1; destruct (negb (p_contentSize p0 =? 0)); reflexivity).
+    rewrite B1, optimalBSID_small by lia.
+    destruct (len src <=? _); cbn; unfold bad_bsid; lia. }
+  destruct (begin_rejects_bad_bsid c (Some p3) NoDict Hp3) as [c1 H1].
+  assert (Hgen : exists c1, compressBegin_internal c None cdict (Some p3) = (Err FC_ERR_maxBlockSize_invalid, c1)).
+  { unfold compressBegin_internal. cbv zeta.
+    destruct (Z.eqb_spec (p_bsid p3) 0) as [E|E]; [destruct Hp3; contradiction|].
+    rewrite (getBlockSize_bad _ Hp3).
+    replace (isError (errZ FC_ERR_maxBlockSize_invalid)) with true by reflexivity.
+    eexists. reflexivity. }
+  destruct Hgen as [c2 H2]. rewrite H2. eexists. reflexivity.
+Qed.
+
